@@ -291,6 +291,34 @@ fn many_parts_record(t: i32, nparts: usize, per_part: usize) -> Vec<u8> {
 }
 
 /// An index file declaring 2^k entries with nothing behind them.
+/// A valid one-record Point file and an index holding `k` times the same entry (one that cannot
+/// address a record), optionally followed by the entry of the real record: class (i).
+fn useless_entries(k: usize, entry: (i32, i32), good_last: bool) -> (Vec<u8>, Vec<u8>) {
+    let mut shp = vec![0u8; 100];
+    put(&mut shp, 0, 9994, true);
+    put(&mut shp, 24, 64, true);
+    put(&mut shp, 28, 1000, false);
+    put(&mut shp, 32, 1, false);
+    shp.extend_from_slice(&1i32.to_be_bytes());
+    shp.extend_from_slice(&10i32.to_be_bytes());
+    shp.extend_from_slice(&1i32.to_le_bytes());
+    shp.extend_from_slice(&1.5f64.to_le_bytes());
+    shp.extend_from_slice(&2.5f64.to_le_bytes());
+    let mut shx = shp[..100].to_vec();
+    let n = k + good_last as usize;
+    put(&mut shx, 24, (50 + 4 * n as i64).min(i32::MAX as i64) as i32, true);
+    shx.reserve(8 * n);
+    for _ in 0..k {
+        shx.extend_from_slice(&entry.0.to_be_bytes());
+        shx.extend_from_slice(&entry.1.to_be_bytes());
+    }
+    if good_last {
+        shx.extend_from_slice(&50i32.to_be_bytes());
+        shx.extend_from_slice(&10i32.to_be_bytes());
+    }
+    (shp, shx)
+}
+
 fn unbacked_index(k: u32) -> Vec<u8> {
     let mut f = vec![0u8; 100];
     put(&mut f, 0, 9994, true);
@@ -657,6 +685,22 @@ pub fn enumerate(bases: &[Base], ctx: &Ctx, want: &dyn Fn(u64) -> bool, f: &mut 
                 case!({
                     Input { shp: partially_backed(t, 26, real, 0), shx: None, desc: format!("t{} declares 2^26 points, {} really present", t, real), class: "f:partially-backed-counts" }
                 });
+            }
+        }
+        // (i) a long run of index entries that cannot address a record (zeroed, inside the file
+        //     header, negative), really present, next to a valid one-record file
+        let runs: &[usize] = if thorough { &[3000, 40_000, 200_000] } else { &[3000, 40_000, 200_000] };
+        for &k in runs {
+            for &entry in &[(0i32, 0i32), (10, 10), (-1, 10), (i32::MIN, 0), (49, 2)] {
+                for &good_last in &[false, true] {
+                    // a sampled sweep (the unoptimised build) still runs every case of this class
+                    let forced = ctx.opt_u64("sample", 1) > 1 && ctx.only.is_none() && idx % ctx.opt_u64("shards", 1) == ctx.opt_u64("shard", 0) && idx >= ctx.opt_u64("start", 0);
+                    if want(idx) || forced {
+                        let (shp, shx) = useless_entries(k, entry, good_last);
+                        f(idx, Input { shp, shx: Some(shx), desc: format!("valid one-point file, index of {} entries (offset {}, length {}){}", k, entry.0, entry.1, if good_last { " followed by the one good entry" } else { "" }), class: "i:long-run-of-useless-index-entries" });
+                    }
+                    idx += 1;
+                }
             }
         }
     }
